@@ -78,6 +78,16 @@ CLAIMS['C04'] = dict(
          "the relocation arithmetic puts every node in exactly one chain is NOT decided.",
     technique="role discovery by effect + pending-aware value classification over branch facts + typestate (stop value) + init/clear sibling agreement")
 
+CLAIMS['C19'] = dict(
+    text="Decides structural necessary conditions on every path of the code as written: (S1) the load factor divides by the effective "
+         "bucket count; (S2) resize's skip-the-update decision compares the request with the effective (pending-aware) geometry or "
+         "forces the rehash first; (S3) insert/find/erase cannot reach the completer, call the sweep with a constant quota q >= 1 with "
+         "q + directly cleaned buckets <= 3, the sweep's cleaner calls sit in the quota loop, and no other bucket-array walk is "
+         "reachable; (S4) completion adopts count and function before clearing the pending marker, resize records the requested "
+         "count / requested-else-existing-else-default function and restarts the sweep; (S5) exactly one hash call per lookup when "
+         "nothing is pending (path-sensitive). Histories of requests and the sweep's arithmetic are NOT explored.",
+    technique="role discovery by effect + call-graph reachability + pending-aware value classification + typestate call counting over LLVM IR")
+
 NA = {
     'C02': "inductive colour/black-height invariant over an unbounded pointer structure; needs shape/separation reasoning that no static analyser available here provides (DESIGN.md 4/C02)",
     'C07': "heap order and completeness are inductive invariants tying pointer shape to size arithmetic; not expressible as dataflow/typestate/effects (DESIGN.md 4/C07)",
